@@ -212,6 +212,12 @@ def run(chk):
                           seed=chk.seed if sim else None)
         chk.add_tlc(res)
         emits = res.emits
+        if sim:
+            # the simulator meets the same (definition, operand texts) scenario in several behaviours: keep each once
+            uniq = {}
+            for e in emits:
+                uniq.setdefault((str(e['isa']), str(e['t'])), e)
+            emits = list(uniq.values())
         cap = 14000 if quick else 120000
         if len(emits) > cap:
             # every scenario in which a value decides the statement's fate after selection, and a seeded sample of the others
